@@ -85,6 +85,9 @@ func (g *cgen) op(independent bool, id string, keyBase int) string {
 // function entry0.
 func GenerateConcurrent(t *rapid.T) *ConcProgram {
 	g := &cgen{t: t, feats: map[string]bool{}}
+	if g.chance("loopvarshape", 20) {
+		return g.loopVarCapture()
+	}
 	independent := g.chance("independent", 55)
 	nthreads := 1 + g.pick("nthreads", 3)
 	useMachine := false
@@ -241,4 +244,61 @@ func indentMore(s string) string {
 		lines[i] = "\t" + lines[i]
 	}
 	return strings.Join(lines, "\n") + "\n"
+}
+
+// loopVarCapture generates a program whose goroutines capture the variable of
+// a three-clause for loop directly (no `idx := i` copy) and are joined inside
+// the iteration, so that all accesses to the loop variable are ordered: the
+// goroutine reads it, and sometimes updates it, and the loop continues from
+// the updated value. The result does not depend on the schedule.
+func (g *cgen) loopVarCapture() *ConcProgram {
+	g.feat("captures-loop-variable")
+	var b strings.Builder
+	w := func(format string, a ...any) { fmt.Fprintf(&b, format, a...) }
+	n := 2 + g.pick("lvbound", 5)
+	childWrites := g.chance("lvchildwrites", 50)
+	parentWrites := g.chance("lvparentwrites", 30)
+	join := []string{"waitgroup", "cond"}[g.pick("lvjoin", 2)]
+	w("func entry0() (uint64, uint64, uint64, []uint64) {\n")
+	w("\tmu := new(sync.Mutex)\n\tvar x uint64 = %d\n\tvar iters uint64\n\tvar log []uint64\n", g.lit("lvx0")%1000)
+	if join == "cond" {
+		w("\tcond := sync.NewCond(mu)\n")
+		g.feat("condvar")
+	}
+	w("\tfor i := uint64(%d); i < %d; i++ {\n", g.pick("lvstart", 2), n)
+	if parentWrites {
+		g.feat("parent-writes-loop-variable-before-go")
+		w("\t\tif i == 1 {\n\t\t\ti = i + 1\n\t\t}\n")
+	}
+	if join == "waitgroup" {
+		g.feat("waitgroup")
+		w("\t\twg := new(sync.WaitGroup)\n\t\twg.Add(1)\n")
+	} else {
+		w("\t\tvar done bool\n")
+	}
+	w("\t\tgo func() {\n\t\t\tmu.Lock()\n\t\t\tx = x*3 + i\n\t\t\tlog = append(log, i)\n")
+	if childWrites {
+		g.feat("goroutine-writes-loop-variable")
+		w("\t\t\tif i %% 2 == 0 {\n\t\t\t\ti = i + %d\n\t\t\t}\n", 1+g.pick("lvinc", 2))
+	}
+	if join == "cond" {
+		w("\t\t\tdone = true\n\t\t\tcond.Signal()\n")
+	}
+	w("\t\t\tmu.Unlock()\n")
+	if join == "waitgroup" {
+		w("\t\t\twg.Done()\n")
+	}
+	w("\t\t}()\n")
+	if join == "waitgroup" {
+		w("\t\twg.Wait()\n")
+	} else {
+		w("\t\tmu.Lock()\n\t\tfor !done {\n\t\t\tcond.Wait()\n\t\t}\n\t\tmu.Unlock()\n")
+	}
+	w("\t\titers = iters + 1\n\t}\n")
+	w("\tmu.Lock()\n\tr0 := x\n\tr1 := log\n\tmu.Unlock()\n\treturn r0, iters, uint64(len(r1)), r1\n}\n")
+	var feats []string
+	for f := range g.feats {
+		feats = append(feats, f)
+	}
+	return &ConcProgram{Src: "package main\n\nimport (\n\t\"sync\"\n)\n\n" + b.String(), Independent: true, Features: feats, Threads: 2}
 }
